@@ -1199,6 +1199,20 @@ fn main() {
     // one build epoch for every in-process compile
     unsafe { std::env::set_var("SOURCE_DATE_EPOCH", "1700000000") };
     let args = vcore::parse_args();
+    if args.rest.first().map(|s| s.as_str()) == Some("probe-glyf") {
+        // read one persisted BE glyph file back with the real reader
+        use fontir::orchestration::Persistable;
+        let bytes = std::fs::read(&args.rest[1]).unwrap();
+        println!("{} bytes: {:?}", bytes.len(), &bytes[..bytes.len().min(64)]);
+        let r = catch_unwind(AssertUnwindSafe(|| {
+            let g = <fontbe::orchestration::Glyph as Persistable>::read(&mut bytes.as_slice());
+            let mut again = vec![];
+            g.write(&mut again);
+            (format!("{g:?}"), again == bytes)
+        }));
+        println!("{:?}", r.map_err(panic_msg));
+        std::process::exit(0);
+    }
     if let Some(p) = &args.replay {
         replay(p);
     }
